@@ -69,11 +69,14 @@ def run(repo: Repo, ctx) -> None:
         'the FailedStateSync try; R4 the belief merge tests None, not '
         'truthiness; R5 LAST_STATE writers agree with the pool\'s '
         '_last_pickled_state writers, the reuse marker and the by-reference '
-        'schema are sent only under the matching identity test. '
+        'schema are sent only under the matching identity test; R6 the '
+        'compiler server records as a worker\'s client schema the snapshot '
+        'it computed the transmitted difference from (bound before the '
+        'await, never re-read after it). '
         'Multi-failure histories are not decided.')
     ctx.not_decided = ['multi-failure histories', 'worker selection policy',
                        'remote compiler server (edb/server/compiler_pool/'
-                       'server.py forwarding)']
+                       'server.py forwarding) beyond R6']
     ctx.assumptions = ['component identity by name after stripping '
                        '_pickle/_unpacked and owner prefixes; '
                        'instance_config == system_config']
@@ -717,6 +720,94 @@ def run(repo: Repo, ctx) -> None:
                 ctx.ob('C17.R1', f'RemotePool.compile_in_tx:send-order@{n}',
                        ok, f'remote in-tx call sends {got}',
                        f'{rp.module.rel()}:{c.lineno}', sample=got)
+    _belief_snapshot(repo, ctx)
+
+
+def _belief_snapshot(repo: Repo, ctx) -> None:
+    """R6: what a pool records as a worker's state after `await
+    worker.call(...)` is the value it computed the transmitted difference
+    from - a local bound before the await and not rebound afterwards.
+    Shared tables (self._clients, ...) may have moved on while the request
+    was in flight; re-reading them records a state that was never sent."""
+    ctx.floor('C17.R6', 1)
+    n = 0
+    for mn in (f'{PKG}.server', POOL, f'{PKG}.multitenant_worker'):
+        if mn not in repo.modules:
+            continue
+        for f in repo._funcs_of(repo.module(mn)):
+            if not isinstance(f.node, ast.AsyncFunctionDef):
+                continue
+            g = CFG(f.node, raise_pred=lambda e: False, assert_raises=False)
+            aw = [x.id for x in g.nodes if any(
+                isinstance(a, ast.Await) and isinstance(a.value, ast.Call)
+                and norm(a.value.func).endswith('worker.call')
+                for e in g.node_exprs(x) for a in ast.walk(e))]
+            if not aw:
+                continue
+            for x in g.nodes:
+                for c in g.node_calls(x):
+                    if not (isinstance(c.func, ast.Attribute) and c.func.attr
+                            in ('set_client_schema',) and len(c.args) >= 2):
+                        continue
+                    if not any(x.id in g.reachable([a]) for a in aw):
+                        continue
+                    val = c.args[1]
+                    n += 1
+                    ctx.saw(f)
+                    if not isinstance(val, ast.Name):
+                        ctx.fail('C17.R6', f'{_short(f)}:belief@L'
+                                 f'{c.lineno - f.node.lineno}',
+                                 f'{_short(f)} records `{norm(val)}` as the '
+                                 f'worker\'s state after the call: it is '
+                                 f'read after the await, not the snapshot '
+                                 f'the difference was computed from', f.loc)
+                        continue
+                    binds = [y.id for y in g.nodes if y.kind == 'stmt'
+                             and isinstance(y.ast, (ast.Assign, ast.AnnAssign,
+                                                    ast.AugAssign))
+                             and any(isinstance(t, ast.Name) and t.id ==
+                                     val.id for tt in (
+                                         y.ast.targets if isinstance(
+                                             y.ast, ast.Assign)
+                                         else [y.ast.target])
+                                     for t in ast.walk(tt))]
+                    after = [b for b in binds
+                             if any(b in g.reachable([a]) for a in aw)]
+                    # the transmitted value is derived from the same local
+                    sent = set()
+                    for a in aw:
+                        for e in g.node_exprs(g.nodes[a]):
+                            for cc in ast.walk(e):
+                                if isinstance(cc, ast.Call) and norm(
+                                        cc.func).endswith('worker.call'):
+                                    sent |= {z.id for arg in cc.args
+                                             for z in ast.walk(arg)
+                                             if isinstance(z, ast.Name)}
+                    derived = False
+                    for y in g.nodes:
+                        if y.kind == 'stmt' and isinstance(y.ast, ast.Assign):
+                            tn = {t.id for tt in y.ast.targets
+                                  for t in ast.walk(tt)
+                                  if isinstance(t, ast.Name)}
+                            if tn & sent and (val.id in tn or val.id in {
+                                    z.id for z in ast.walk(y.ast.value)
+                                    if isinstance(z, ast.Name)}):
+                                derived = True
+                    ok = bool(binds) and not after and derived
+                    ctx.ob('C17.R6', f'{_short(f)}:belief@L'
+                           f'{c.lineno - f.node.lineno}', ok,
+                           f'{_short(f)} records `{val.id}` as the worker\'s '
+                           f'state after the call, but `{val.id}` is '
+                           f'{"rebound after the await" if after else "not what the transmitted difference was computed from"}'
+                           f': another request of the same client can have '
+                           f'moved the shared table on meanwhile, so the '
+                           f'worker is believed to hold a schema it was '
+                           f'never sent and later requests compile against '
+                           f'the old one', f.loc,
+                           sample=f'{val.id} bound before the await only')
+    if n < 2:
+        raise AnalysisError(f'C17.R6: only {n} belief writes after a '
+                            f'worker call found')
 
 
 def _positional_uses(cbf, k):
